@@ -232,9 +232,9 @@ def observe_ops(m, env):
             try:
                 mine, fresh = answers(c), answers(c.copy())
                 if mine != fresh:
-                    stale.append({'observable': f'op:{name} (object after the operation vs its fresh copy)', 'first': fresh[:600], 'other': mine[:600]})
+                    stale.append({'observable': f'op:{name}', 'first': fresh[:600], 'other': mine[:600]})
                 elif not (c == c.copy()):
-                    stale.append({'observable': f'op:{name} (object after the operation != its copy)', 'first': 'equal', 'other': 'unequal'})
+                    stale.append({'observable': f'op:{name}', 'first': 'mol == mol.copy()', 'other': 'mol != mol.copy()'})
             except Exception as e:
                 if not isinstance(e, (TypeError, KeyError, ValueError)):      # molecules with valence errors cannot always be spelled
                     raise
@@ -663,7 +663,7 @@ def worker(spec_path, out_path):
         first = observe_reads(m, env)
         ops = observe_ops(m, env)                           # operations on copies: m itself must stay untouched
         for d in json.loads(ops.pop('__stale__')):
-            intra.append(dict(d, input=tag, variant='fresh copy after the edit' if d['observable'].startswith(('edit', 'op:')) else 'that attribute read first on a fresh copy'))
+            intra.append(dict(d, input=tag, variant='fresh copy after the edit' if d['observable'].startswith('edit') else 'fresh copy of the object after the in-place operation' if d['observable'].startswith('op:') else 'that attribute read first on a fresh copy'))
         if instrumented:         # one pass over every observable is enough to execute the code; the comparisons are for the others
             first.update(ops)
             obs[tag] = first
@@ -1037,7 +1037,7 @@ def differential(ck, spec, results, label=''):
             smi = smi_of.get(d['input'], d['input'])
             vkey = {'second call (cached, after operations on copies)': 'cached', 'second call (cached)': 'cached', 'after flush_cache': 'flushed',
                     'after flush_cache (read in reverse order)': 'flushed', 'copy() (read in shuffled order)': 'copy',
-                    'copy()': 'copy', 're-parsed object': 'reparsed', 'ops on copy()': 'copy-ops', 'fresh copy after the edit': 'stale', 'that attribute read first on a fresh copy': 'first-read'}.get(d['variant'], d['variant'])
+                    'copy()': 'copy', 're-parsed object': 'reparsed', 'ops on copy()': 'copy-ops', 'fresh copy after the edit': 'stale', 'fresh copy of the object after the in-place operation': 'stale-after-op', 'that attribute read first on a fresh copy': 'first-read'}.get(d['variant'], d['variant'])
             ck.counterexample(f'{vkey}:{family(d["observable"])}', f'{d["observable"]} of {smi!r}: first call differs from {d["variant"]}',
                               {'input': smi, 'observable': d['observable'], 'variant': d['variant'], 'PYTHONHASHSEED': seed},
                               d['other'], d['first'], 'first (uncached) evaluation of the same object',
